@@ -18,7 +18,7 @@ where
 {
     fn write_xml(&self, writer: &mut W) -> WriterResult<()> {
         for (operation_name, operation) in &self.operations {
-            writeln!(writer, "\n/* {operation_name} */\n")?;
+            writeln!(writer, "\n// operation {operation_name:?}\n")?;
 
             // input
             let operation_name = to_pascal_case(operation_name);
